@@ -134,7 +134,7 @@ func (c *Ctx) mentionsField(v ssa.Value, field string, depth int) bool {
 		return false
 	case *ssa.UnOp:
 		if fa, ok := x.X.(*ssa.FieldAddr); ok && x.Op == token.MUL {
-			if c.fieldName(fa.X.Type(), fa.Field) == field {
+			if c.readFieldName(fa.X.Type(), fa.Field) == field {
 				return true
 			}
 			return c.mentionsField(fa.X, field, depth-1)
@@ -149,7 +149,7 @@ func (c *Ctx) mentionsField(v ssa.Value, field string, depth int) bool {
 		}
 		return c.mentionsField(x.X, field, depth-1)
 	case *ssa.Field:
-		if c.fieldName(x.X.Type(), x.Field) == field {
+		if c.readFieldName(x.X.Type(), x.Field) == field {
 			return true
 		}
 		return c.mentionsField(x.X, field, depth-1)
@@ -569,4 +569,92 @@ func reachAvoid(from, to *ssa.BasicBlock, avoid map[*ssa.BasicBlock]bool) bool {
 		return false
 	}
 	return core.Reachable(from, to, avoid)
+}
+
+// fieldAliases: unexported struct fields of the package every store into which is a plain copy of one other
+// field (a derived field filled when its struct is built): reading the copy is reading the original.
+func (c *Ctx) fieldAliases() map[string]string {
+	if c.aliases != nil {
+		return c.aliases
+	}
+	c.aliases = map[string]string{}
+	type info struct {
+		srcs map[string]bool
+		bad  bool
+	}
+	fields := map[string]*info{}
+	name := func(t types.Type, idx int) (string, bool) {
+		n, ok := types.Unalias(derefType(t)).(*types.Named)
+		if !ok || n.Obj().Pkg() != c.P.Types {
+			return "", false
+		}
+		fv := core.StructField(t, idx)
+		if fv == nil || fv.Exported() {
+			return "", false
+		}
+		co, cf := core.CanonField(n.Obj().Name(), fv.Name())
+		return co + "." + cf, true
+	}
+	for _, fn := range c.P.Funcs {
+		core.EachInstr(fn, func(i ssa.Instruction) {
+			st, ok := i.(*ssa.Store)
+			if !ok {
+				return
+			}
+			fa, ok := st.Addr.(*ssa.FieldAddr)
+			if !ok {
+				return
+			}
+			key, ok := name(fa.X.Type(), fa.Field)
+			if !ok {
+				return
+			}
+			inf := fields[key]
+			if inf == nil {
+				inf = &info{srcs: map[string]bool{}}
+				fields[key] = inf
+			}
+			ld, isLd := st.Val.(*ssa.UnOp)
+			if !isLd || ld.Op != token.MUL {
+				inf.bad = true
+				return
+			}
+			fa2, isFa := ld.X.(*ssa.FieldAddr)
+			if !isFa {
+				inf.bad = true
+				return
+			}
+			var src string
+			if n2, ok := types.Unalias(derefType(fa2.X.Type())).(*types.Named); ok {
+				co, cf := core.CanonField(n2.Obj().Name(), core.StructField(fa2.X.Type(), fa2.Field).Name())
+				src = co + "." + cf
+			}
+			if src == "" || src == key {
+				inf.bad = true
+				return
+			}
+			inf.srcs[src] = true
+		})
+	}
+	for key, inf := range fields {
+		if core.InBaselineField(key) {
+			continue // a field of the pinned tree keeps its own identity
+		}
+		if !inf.bad && len(inf.srcs) == 1 {
+			for src := range inf.srcs {
+				c.aliases[key] = src
+			}
+		}
+	}
+	return c.aliases
+}
+
+// readFieldName: fieldName for a field that is being READ: a new (non-baseline) field that only ever holds a
+// copy of another field (st.draft = rs.draft, filled when the struct is built) reads as that field.
+func (c *Ctx) readFieldName(t types.Type, idx int) string {
+	n := c.fieldName(t, idx)
+	if a, ok := c.fieldAliases()[n]; ok {
+		return a
+	}
+	return n
 }
